@@ -14,7 +14,8 @@ def regenerate():
     import importlib
     for name in ("t1_handles", "t2_hextables", "t3_tetlabels", "t4_ovmb_consts", "t5_footprint"):
         try:
-            importlib.import_module(name).generate()
+            mod = importlib.import_module(name)
+            (mod.t5 if name == "t5_footprint" else mod.generate)()   # t5's generate() only analyses, t5() writes the fragment
         except Exception as e:  # the check that owns the fragment reports it (fails closed there)
             log("[setup] translator %s failed: %s" % (name, str(e)[:500]))
 
